@@ -1,3 +1,4 @@
 //! Shared generators (proptest strategies).
+pub mod faultsave;
 pub mod text;
 pub mod wb;
